@@ -258,6 +258,16 @@ def suite_volume(ctx):
         freq = float(rng.choice([1.0, 3.7e4, 2.5e7, -1.0, -4.0e5, -0.37]))
         sf = emg3d.Field(grid, frequency=freq)
         try:
+            # the operator of a model must not depend on how often it was
+            # built: build it twice from the same Model instance (every
+            # second case), keep the second one
+            if t % 2:
+                before = {k: np.array(getattr(model, k), copy=True)
+                          for k in props}
+                emg3d.models.VolumeModel(model, sf)
+                for k, v0 in before.items():
+                    if not np.array_equal(v0, getattr(model, k)):
+                        viol.append(f'VolumeModel changed model.{k}')
             vm = emg3d.models.VolumeModel(model, sf)
             got = {'x': vm.eta_x, 'y': vm.eta_y, 'z': vm.eta_z,
                    'zeta': vm.zeta}
@@ -315,7 +325,8 @@ def suite_volume(ctx):
              'epsilon_r': b[0][3], 'shape': b[0][4], 'cell': b[0][5],
              'coefficient': b[0][6], 'got': str(b[1]), 'expected': str(b[2])})
     for v in viol[:1]:
-        ctx.violation('coefficients-dtype', v, {'what': v})
+        ctx.violation('coefficients-dtype' if 'dtype' in v else
+                      'volume-model-mutates-model', v, {'what': v})
     return bad
 
 
